@@ -1,6 +1,6 @@
 (* C11 — garbage collection actually reclaims space, in bounded cycles (one-cycle reclamation theorems). *)
 From Coq Require Import List NArith.
-From STH Require Import Log Lex Index Store GCIndex Refine GInv Reclaim ReclaimIdx.
+From STH Require Import Log Lex Index Store GCIndex Refine GInv Reclaim ReclaimIdx Idem.
 Import ListNotations.
 Open Scope N_scope.
 
@@ -25,3 +25,23 @@ Theorem C11_index_file_released_in_one_cycle :
     ireleased (index_gc sf ix) f \/ f < ifirst (index_gc sf ix).
 Proof. exact index_gc_reclaims. Qed.
 Print Assumptions C11_index_file_released_in_one_cycle.
+
+(* ---- the fixed point ("repeated cycles on an unchanged store ... nothing more is written"), file level.  The mark / merge / truncate
+   fold brings a file into a normal form (every live record referenced where it stands, free spans merged, nothing free at the
+   end) and leaves a file in normal form exactly as it is: a second pass over ANY file, for any busy test, returns the same
+   records ... ---- *)
+Theorem C11_second_pass_over_a_file_changes_nothing :
+  forall (slot : Type) (len_of : slot -> N) (is_dead : slot -> bool) (mk_dead : N -> slot),
+    (forall n, len_of (mk_dead n) = n) -> (forall n, is_dead (mk_dead n) = true) ->
+    (forall s, is_dead s = true -> s = mk_dead (len_of s)) ->
+    forall (busy : N -> slot -> bool) (l : list slot),
+      let l1 := reap_go slot len_of is_dead mk_dead busy l 0 [] None in
+      reap_go slot len_of is_dead mk_dead busy l1 0 [] None = l1.
+Proof. exact reap_idempotent. Qed.
+Print Assumptions C11_second_pass_over_a_file_changes_nothing.
+
+(* ... and for an index file the second pass returns the same state and the same verdict (stale or not). *)
+Theorem C11_second_reap_of_an_index_file_writes_nothing :
+  forall ix f, let '(ix1, stale) := reap_index_file ix f in reap_index_file ix1 f = (ix1, stale).
+Proof. exact reap_index_file_idempotent. Qed.
+Print Assumptions C11_second_reap_of_an_index_file_writes_nothing.
